@@ -491,7 +491,9 @@ class RandomInputs:
         if b == "Int":
             return self.int_value(ty["a"])
         if b == "F64":
-            ip = r.choice([0, 0, 1, r.getrandbits(10), r.getrandbits(30), r.getrandbits(44)])
+            # <= 10 integer + <= 4 fractional digits: at most 15 significant digits, so Rust's shortest round-trip
+            # Display prints exactly this decimal (the observation is compared as text)
+            ip = r.choice([0, 0, 1, r.getrandbits(10), r.getrandbits(20), r.getrandbits(30)])
             fr = r.choice(["", "", "5", "25", "75", "125", "375", "0625"])
             sg = "-" if (ip or fr) and r.random() < 0.4 else ""
             return val("f64", sg, to_bits(ip), fr)
@@ -555,14 +557,19 @@ def run(tier, replay):
     cat = g.prints[0]
     attr = cat["attr"]
     programs, literals = [], []          # TLC's lines
+    rnd_inputs = []
     if replay:
+        # a replay file holds either the TLC line of an enumerated vector or the record of a random one
         case = json.load(open(replay))["case"]
         if case.get("tlc_line", {}).get("kind") == "map":
             programs = [case["tlc_line"]]
         elif case.get("tlc_line", {}).get("kind") == "lit":
             literals = [case["tlc_line"]]
+        elif case.get("kind") == "trace-record":
+            x = case["record"]
+            rnd_inputs = [dict({k: x[k] for k in (("id", "kind", "prog", "d", "v") if x["kind"] == "map" else ("id", "kind", "ast"))}, pidx=0)]
         else:
-            raise vlib.ToolError("replay file has no TLC line to replay (kind %s)" % case.get("kind"))
+            raise vlib.ToolError("replay file has nothing to replay (kind %s)" % case.get("kind"))
     else:
         for cfg, workers, least in (("Gen_JsonMap_lib.cfg", 1, 4),
                                     ("Gen_JsonMap_decl_thorough.cfg" if thorough else "Gen_JsonMap_decl_quick.cfg", 6, 100)):
@@ -604,7 +611,6 @@ def run(tier, replay):
     crate.add_literals("lits", lit_specs, cat["env"])
 
     # ---- 3. random inputs, their documented JSON from TLC ------------------------------------------
-    rnd_inputs = []
     if not replay:
         ri = RandomInputs(ctx.seed * 7919 + (1 if thorough else 0), cat)
         nprog, nlit = (220, 3000) if thorough else (40, 400)
@@ -616,6 +622,7 @@ def run(tier, replay):
                                        "v": ri.decl_value(d, prog), "pidx": p})
         for i in range(nlit):
             rnd_inputs.append({"id": "rl%04d" % i, "kind": "lit", "ast": ri.literal(ri.rng.randint(1, 6))})
+    if rnd_inputs:
         inp = os.path.join(work, "inputs-%s.ndjson" % tier)
         vlib.write_lines(inp, rnd_inputs)
         e = tlc("Trace_JsonMap.tla", "Trace_JsonMap.cfg", workers=1, env={"TRACE": inp, "EXPECT": "1"}, timeout=1500, deque=True, heap="6g")
@@ -652,7 +659,11 @@ def run(tier, replay):
         if verdict != "ok":
             mism += 1
             d = next(x for x in line["prog"] if x["name"] == line["d"])
-            what = "%s: value %s of\n%s\n  documented JSON %s\n  observed %s" % (
+            if not r["compiled"]:
+                what = "%s: generated program does not compile (%s):\n%s" % (verdict or "compile error for a supported shape", r.get("rustc"),
+                                                                             "\n".join(rust_decl(x) for x in line["prog"]))
+            else:
+                what = "%s: value %s of\n%s\n  documented JSON %s\n  observed %s" % (
                 verdict or "typed mapping differs from the specification", rust_decl_value(vec["v"], d, line["prog"]), rust_decl(d),
                 json_text(vec["doc"]), json.dumps(brief(r), ensure_ascii=False))
             findings.append((what, {"kind": "map-vector", "id": vid, "expected": vec["exp"], "observed": r,
@@ -730,8 +741,8 @@ def run(tier, replay):
             ctx.sample({"random": describe(x), "observed": json_text(x["obs"])})
 
         # binding self-test: one altered observation must be rejected by TLC (DESIGN 3.1)
-        good = [x for x in recs if x["kind"] == "map" and x["panic"] == "" and x["obs"]["c"]][:1] + \
-               [x for x in recs if x["kind"] == "lit" and x["obs"]["c"]][:1]
+        good = [] if replay else ([x for x in recs if x["kind"] == "map" and x["panic"] == "" and x["obs"]["c"]][:1] +
+                                  [x for x in recs if x["kind"] == "lit" and x["obs"]["c"]][:1])
         bad = []
         for x in good:
             y = json.loads(json.dumps(x))
@@ -775,6 +786,9 @@ def run(tier, replay):
 
 
 def describe(x):
+    if not x.get("compiled", True):
+        what = "literal %s" % x["id"] if x["kind"] == "lit" else "program %s" % " ".join(rust_decl(d).replace("\n", " ") for d in x["prog"])[:900]
+        return "DOES NOT COMPILE (%s): %s" % (x.get("rustc", ""), what)
     if x["kind"] == "lit":
         return "literal %s" % x["id"]
     d = next(y for y in x["prog"] if y["name"] == x["d"])
